@@ -159,7 +159,7 @@ func genHistoryAny(rt *rapid.T, focus string) (*CaseHist, map[string]int) {
 				tn = rapid.SampledFrom(TypeNames).Draw(rt, "type")
 			}
 			o := DefaultOpts(Arbitrary)
-			o.BigProb, o.MaxList = 80, 2000
+			o.BigProb, o.MaxList, o.HugeProb, o.HugeObj = 80, 2000, 0, 0 // the model compares the whole buffer after every step: keep histories small
 			v, ft := GenValue(rt, tn, o)
 			c.Ops = append(c.Ops, Op{Kind: "encode", V: v})
 			encIdx = append(encIdx, len(c.Ops)-1)
